@@ -44,7 +44,7 @@ def make_inputs(artdir, workdir, backend, cases, maxsteps=200000, nblocks=256, f
         tcases.append({"p": pidx[name], "name": "%s@%s" % (name, ",".join(map(str, args))),
                        "args": [_limbs(a) for a in args]})
     cfg = json.load(open(os.path.join(artdir, backend + ".config.json")))
-    cfg.update({"maxsteps": maxsteps, "nblocks": nblocks, "footprint_k": footprint_k, "skip_counts": skip_counts})
+    cfg.update({"maxsteps": maxsteps, "nblocks": nblocks, "footprint_k": footprint_k, "skip_counts": skip_counts, "strict_encode": False})
     os.makedirs(workdir, exist_ok=True)
     paths = {}
     for nm, obj in (("progs", progs), ("cases", tcases), ("cfg", cfg)):
